@@ -623,7 +623,8 @@ func (s *Sim) Step() error {
 			b.Votes = append(b.Votes, Vote{Addr: v.Addr, Power: v.Power, Signed: signed})
 		}
 	}
-	if r.Intn(14) == 0 && len(s.all) > 0 {
+	// (block 1 carries no evidence: evidence is about an earlier height, and there is none)
+	if h >= 2 && r.Intn(14) == 0 && len(s.all) > 0 {
 		if len(cur) > 0 && r.Intn(3) > 0 {
 			b.Evidence = append(b.Evidence, cur[r.Intn(len(cur))].Addr)
 		} else {
@@ -663,7 +664,7 @@ func (s *Sim) Step() error {
 		s.H.Blocks, s.H.Obs = append(s.H.Blocks, b), append(s.H.Obs, o)
 		return fmt.Errorf("BeginBlock panicked at height %d: %s", h, o.BeginPanic)
 	}
-	for i := 0; i < ntx; i++ {
+	for i := 0; i < ntx || (s.script == nil && len(s.pending) > 0 && i < ntx+4); i++ {
 		var bt *Built
 		if s.script == nil && len(s.recent) > 0 && r.Intn(14) == 0 {
 			old := s.recent[r.Intn(len(s.recent))]
@@ -932,6 +933,24 @@ func (s *Sim) genEvmTx(deploy bool) *TxSpec {
 	}
 	c := s.contracts[r.Intn(len(s.contracts))]
 	s.watchAddr(make([]byte, 20)) // calls without data make the programs use address 0
+	if r.Intn(6) == 0 {
+		// both execution paths for one account inside one block: a contract call by Y, a native
+		// transaction by Y, then another contract call (by Y or by somebody else)
+		y := from
+		t1 := s.baseTx(6, y, c)
+		t1.Data, t1.Gas, t1.Note = word(y.Addr), uint64(150000+r.Intn(200000)), "mixed-paths-1-call"
+		t2 := s.baseTx(1, y, s.pick(s.all).Addr)
+		t2.Amount, t2.Note = fmt.Sprint(1000+r.Intn(5000)), "mixed-paths-2-native-transfer"
+		if r.Intn(3) == 0 {
+			t2 = s.baseTx(7, y, make([]byte, 20))
+			t2.DocName, t2.DocURL, t2.Note = fmt.Sprintf("mixed-%d", r.Intn(9)), "https://mixed", "mixed-paths-2-native-setdoc"
+		}
+		z := s.pick(s.all)
+		t3 := s.baseTx(6, z, s.contracts[r.Intn(len(s.contracts))])
+		t3.Data, t3.Gas, t3.Note = word(y.Addr), uint64(150000+r.Intn(200000)), "mixed-paths-3-call"
+		s.pending = append(s.pending, t2, t3)
+		return t1
+	}
 	switch r.Intn(5) {
 	case 0, 1:
 		t := s.baseTx(6, from, c)
